@@ -370,7 +370,8 @@ package cli
 //@   let names = strings_Fields(name)
 //@   ensures no-collision: forall j int :: 0 <= j && j < len(names) ==> !old(optStr(names[j]) in cli.Cmd.optionsIdx)
 //@   ensures declared-now: len(cli.Cmd.options) == old(len(cli.Cmd.options)) + 1 && cli.Cmd.options[old(len(cli.Cmd.options))].Name == name &&
-//@       cli.Cmd.options[old(len(cli.Cmd.options))].HideValue
+//@       cli.Cmd.options[old(len(cli.Cmd.options))].HideValue && cli.Cmd.options[old(len(cli.Cmd.options))].Desc == "Show the version and exit" &&
+//@       cli.Cmd.options[old(len(cli.Cmd.options))].EnvVar == ""
 //@   ensures version-option: cli.version != nil && cli.version.version == version &&
 //@       (len(names) > 0 ==> cli.version.option == cli.Cmd.options[old(len(cli.Cmd.options))])
 
